@@ -571,6 +571,44 @@ def run(ctx, chk, tier="quick"):
                 tail_ok = "%s[%s]" % (cand_p, proposer) in ast.unparse(st.test)
     chk.ob("C02.O3", tail_ok, where_of(fsm, loop), tdesc, "a rejected storm that still has candidates goes back to the free set",
            key="find_stable_matching|requeue-rejected", why="dropping it leaves it unmatched although an overlapping rise may prefer it")
+    # every storm taken from the free set proposes: between taking it and the proposal (the pop from its candidate list)
+    # the iteration is not abandoned, except under the exact test "this storm has no candidates left"
+    early = []
+    if proposer is not None:
+        pstmt = next((st for st in loop.body if any(x is pop for x in ast.walk(st))), None)
+        for n in ast.walk(loop):
+            if isinstance(n, (ast.Continue, ast.Break, ast.Return)) and n.lineno < pop.lineno and (pstmt is None or not any(x is n for x in ast.walk(pstmt))):
+                g = getattr(n, "parent", None)
+                while g is not None and g is not loop and not isinstance(g, ast.If):
+                    g = getattr(g, "parent", None)
+                test = g.test if isinstance(g, ast.If) else None
+                in_else = isinstance(g, ast.If) and any(x is n for st_ in g.orelse for x in ast.walk(st_))
+                early.append((n, test, in_else))
+    for n, test, in_else in early:
+        empties = False
+        if test is not None and not in_else:
+            t = test
+            neg = False
+            while isinstance(t, ast.UnaryOp) and isinstance(t.op, ast.Not):
+                t, neg = t.operand, not neg
+            subj = None
+            if neg:
+                subj = t                                   # not CAND[storm]
+            elif isinstance(t, ast.Compare) and len(t.ops) == 1 and isinstance(t.ops[0], ast.Eq) and isinstance(t.comparators[0], ast.Constant) \
+                    and t.comparators[0].value == 0 and isinstance(t.left, ast.Call) and isinstance(t.left.func, ast.Name) and t.left.func.id == "len" and t.left.args:
+                subj = t.left.args[0]                      # len(CAND[storm]) == 0
+            if isinstance(subj, ast.Call) and isinstance(subj.func, ast.Name) and subj.func.id == "len" and subj.args and neg:
+                subj = subj.args[0]                        # not len(CAND[storm])
+            empties = isinstance(subj, ast.Subscript) and isinstance(subj.value, ast.Name) and subj.value.id == cand_p \
+                and isinstance(subj.slice, ast.Name) and subj.slice.id == proposer
+        chk.ob("C02.O4", empties, where_of(fsm, n),
+               "a storm taken from the free set is dropped without proposing when `%s`" % (ast.unparse(test)[:70] if test is not None else "(unconditionally)"),
+               "every free storm with candidates proposes to its best remaining candidate; the iteration may be abandoned only when its candidate list is empty",
+               key="find_stable_matching|every-free-storm-proposes",
+               why="a storm with candidates that is discarded stays unmatched next to a rise that would accept it (a blocking pair); a membership test against the table keyed by rises asks about a rise with the same number, not about this storm")
+    if not early and proposer is not None:
+        chk.ob("C02.O4", True, where_of(fsm, pop), "no exit from the iteration between taking a free storm and its proposal",
+               "every free storm with candidates proposes to its best remaining candidate", key="find_stable_matching|every-free-storm-proposes")
     # every re-queue happens only for a storm that still has candidates (the loop takes a
     # candidate from every storm it pops): Engler-style consistency of the loop's own belief
     pop_stmt = None
